@@ -33,9 +33,6 @@ inductive TEv where
   | rel (k : Kind) (val : Obj) (order : Nat)
   /-- extracted for finalisation and discarded (context popped) -/
   | skip (val : Obj) (order : Nat)
-  /-- a queued finalisation (Go finaliser already ran) thrown away by a close-time
-      `ExtractAllMarkedFinalize` whose results ARE run: this epoch's `__gc` is lost -/
-  | dropped (val : Obj) (order : Nat)
 deriving DecidableEq, Repr
 
 def finOrders : List TEv → List Nat
@@ -75,12 +72,6 @@ def closeFinOrders : List TEv → List Nat
   | [] => []
   | .fin .af _ n :: t => n :: closeFinOrders t
   | _ :: t => closeFinOrders t
-
-/-- epochs whose queued finalisation was thrown away at close time (lost `__gc` calls) -/
-def droppedOrders : List TEv → List Nat
-  | [] => []
-  | .dropped _ n :: t => n :: droppedOrders t
-  | _ :: t => droppedOrders t
 
 /-- epochs extracted for finalisation and deliberately not run (their context was popped) -/
 def skipOrders : List TEv → List Nat
